@@ -1062,3 +1062,22 @@ def from_arrays_rule(ctx):
                 if len(inst) != 1 or not isinstance(inst[0][0][0] if inst[0][0] else None, Obj):
                     problems.append(("C02-A1", "from_arrays(raw=False) does not hand the raw data to the class dispatch", f"returns {r!r}"))
     M.settle(ctx, site, allouts, problems, ["C02-A1"], "from_arrays: pad / reject / range-check / own container", "from_arrays")
+
+
+
+# ----------------------------------------------------------------------- generic families (msa/rules/generic.py)
+_run_specific = run
+
+
+def run(ctx):
+    _run_specific(ctx)
+    from ..rules import generic
+    generic.apply(ctx, "C02", stale_modules=())
+
+
+def _generic_rule_texts():
+    from ..rules import generic
+    return generic.rule_texts("C02", stale=False)
+
+
+RULES.update(_generic_rule_texts())
